@@ -264,7 +264,7 @@ PROCESS_OUTPUT = dict(
 def po_inv(self, old, ghost, _i, pdu_to_send):
     a = self._last_acked_tx_seq
     return [
-        pdu_to_send == old.self.peer_tx_window_size - len(old.self._tx_window),
+        # (pdu_to_send is not assigned in the loop: it keeps the value the code computed)
         0 <= _i and _i <= len(old.self._pending_pdus) and _i <= pdu_to_send,
         not blocked(self),
     ] + moved(self, old, _i, False) + [
